@@ -41,6 +41,7 @@ func C11(run *report.Run) {
 		}
 	}
 	c11RacePass(run)
+	c11Synctest(run)
 	run.States = n
 	run.Transitions = n
 	run.Exhaustive = false
